@@ -45,11 +45,14 @@ def run(tier: str, seed: int, rep: Report, model: Model) -> dict:
         tries += 1
         c = GC.gen_case(rnd, with_provider=0, with_ret=0, tuples=0, optionals=0.3, plain=0.2)
         k = rnd.random()
+        nf = 0
         if k > 0.35:
             for _ in range(1 if k < 0.8 else 2):
                 p = GC.perturb(rnd, c)
                 if p:
                     c = p[0]
+                    nf += 1
+        c["nfaults"] = nf
         for p in c["params"]:
             if p["hint"]["k"] == "plain":
                 c["args"][p["name"]] = {"k": "int"}
@@ -68,6 +71,7 @@ def run(tier: str, seed: int, rep: Report, model: Model) -> dict:
             p = GC.perturb(rnd, c)
             if p:
                 c = p[0]
+                c["nfaults"] = 1
         for p in c["params"]:
             if p["hint"]["k"] == "plain":
                 c["args"][p["name"]] = {"k": "int"}
@@ -119,8 +123,10 @@ def run(tier: str, seed: int, rep: Report, model: Model) -> dict:
         if len(set(canon.values())) != 1:
             rep.violation({"what": "the four entry points disagree on identical inputs", **rec})
         else:
+            # several faults: which one is reported first is the code's business (verdict compared); one fault: the whole report
+            keys = KEYS if base.get("nfaults", 0) <= 1 else ("v",)
             for f in four:
-                if tuple(str(mods[f].get(k)) for k in KEYS) != canon[f]:
+                if tuple(str(mods[f].get(k)) for k in keys) != tuple(str(four[f].get(k)) for k in keys):
                     rep.disagreement({"what": f"model and implementation differ for form {f}", **rec})
                     break
         if rep.many_violations():
